@@ -9,6 +9,20 @@ MCActorOf == [r \in MCReps |-> r]
 
 View == coreView
 
+\* ---- scenario scripts (INIT ScriptInit) ------------------------------------------
+CONSTANT ScriptName
+Ins(i, v) == [c |-> "ins", i |-> i, v |-> v]
+Script ==
+  CASE ScriptName = "none" -> <<>>
+    \* identifiers of depth 3: a || b, then s || t between them, then y between s and t (3 actors, 5 inserts)
+    [] ScriptName = "deep_paths" ->
+         << <<"gen", 1, Ins(0, 11)>>, <<"gen", 2, Ins(0, 21)>>,
+            <<"dlv", 2, 1>>, <<"dlv", 1, 2>>, <<"dlv", 3, 1>>, <<"dlv", 3, 2>>,
+            <<"gen", 2, Ins(1, 22)>>, <<"gen", 3, Ins(1, 31)>>,
+            <<"dlv", 3, 3>>, <<"dlv", 2, 4>>,
+            <<"gen", 3, Ins(2, 32)>> >>
+ScriptInit == InitAfter(Script)
+
 ProjB(s) ==
   IF Kind = "list" THEN [seq |-> [i \in 1..Len(s.seq) |-> <<s.seq[i].id, s.seq[i].val>>], clock |-> s.clock]
   ELSE [list |-> s]
